@@ -235,6 +235,13 @@ extern VertexIndex bg_ghost_src;      /* ghost: the source of the running search
                        (v).n <= ((bg_size)1 << 32) && (v).restTrue <= (v).n && (v).restTrue + BG_VECB_OBS(v) <= (v).n && \
                        (!(v).lastValid || ((v).lastI != (bg_size)G_P && (v).lastI != (bg_size)G_Q && (v).lastI < (v).n && \
                                            ((v).lastB ? (v).restTrue > 0 : (v).restTrue + BG_VECB_OBS(v) < (v).n))))
+/* std::list<Edge> handed to an edge-sequence constructor: numbers of entries (G_P,G_Q), (G_Q,G_P), others;
+   its iterator: the entries not yet visited (order irrelevant to what is proved: first insertion wins and
+   unlabelled edges carry nothing) */
+typedef struct { bg_size nPQ, nQP, nOther; bg_size bound; /* every index in an `other` entry < bound */ } bg_edgeseq;
+typedef struct { bg_size remPQ, remQP, remOther; bg_size bound; bg_edge cur; } bg_edgeseq_it;
+#define BG_ESEQ_WF(s) ((s).nPQ < BG_CAP && (s).nQP < BG_CAP && (s).nOther < BG_CAP && (G_P != G_Q || (s).nQP == 0) && (s).bound <= ((bg_size)1 << 32))
+#define BG_ESEQ_LEFT(it) ((it).remPQ + (it).remQP + (it).remOther)
 /* std::unordered_set<VertexIndex>: membership of the observation points, number of other members */
 typedef struct { bg_bool hasP, hasQ; bg_size restCount; bg_size restBound; /* every other member < restBound */ } bg_uset_u;
 /* its iterator: the elements not yet passed (the one under the cursor included); order unspecified */
